@@ -240,6 +240,9 @@ def _impersonate_tcp(
     else:
         flags &= ~(TCPFlag.PSH)  # PSH flag not set
 
+    if Quirk.ECN not in signature.quirks:
+        flags &= ~(TCPFlag.ECE | TCPFlag.CWR | 0x100)  # ECE, CWR, NS flags not set
+
     options = _impersonate_options(tcp, signature, uptime)
 
     return ScapyTCP(
